@@ -479,6 +479,25 @@ Proof.
   - eapply Permutation_trans; [apply Permutation_sym, Permutation_middle|]. apply perm_skip, IH.
 Qed.
 
+(* nothing is duplicated or dropped: the two output lengths add up to the number
+   of source elements that have a condition *)
+Lemma sel_lengths xs cs :
+  length (sel xs cs true) + length (sel xs cs false) = Nat.min (length xs) (length cs).
+Proof.
+  rewrite <- app_length, (Permutation_length (sel_partition xs cs)), firstn_length.
+  apply PeanoNat.Nat.min_l, PeanoNat.Nat.le_min_l.
+Qed.
+
+(* an element is yielded on some side iff it is among the conditioned source prefix *)
+Lemma sel_membership xs cs x :
+  In x (firstn (Nat.min (length xs) (length cs)) xs) <->
+  In x (sel xs cs true) \/ In x (sel xs cs false).
+Proof.
+  rewrite <- in_app_iff. split; intro H.
+  - eapply Permutation_in; [apply Permutation_sym, sel_partition|exact H].
+  - eapply Permutation_in; [apply sel_partition|exact H].
+Qed.
+
 (* each output list is in source order: it is the source filtered by its condition *)
 Lemma sel_in_order xs cs w :
   sel xs cs w = map fst (filter (fun p => Bool.eqb (snd p) w) (combine xs cs)).
